@@ -28,6 +28,14 @@ func checkC16(c *Ctx) {
 	c16Version(c)
 	c16Caps(c)
 	c16Clients(c)
+	// "capabilities follow registration": a listing cache that a sibling registration entry point forgets to invalidate
+	// makes the recomputation see the old (empty) listing
+	{
+		accs := CollectAccesses(c)
+		c12DerivedCache(c, discoverRegistries(c, accs), accs)
+	}
+	// a rejected initialize must reach the client as a failure: the error envelope is handed on whole
+	c02ErrorEnvelope(c)
 }
 
 // ---------------------------------------------------------------- version
